@@ -879,7 +879,7 @@ func (c *MapConverter) To(obj Object) (interface{}, error) {
 		if err != nil {
 			return nil, err
 		}
-		gMap.SetMapIndex(reflect.ValueOf(k), reflect.ValueOf(conv))
+		gMap.SetMapIndex(reflect.ValueOf(k), assignableValue(reflect.ValueOf(conv), c.valueType))
 	}
 	return gMap.Interface(), nil
 }
@@ -939,7 +939,7 @@ func (c *StructConverter) To(obj Object) (interface{}, error) {
 						if err != nil {
 							return nil, err
 						}
-						f.Set(reflect.ValueOf(attrValue))
+						f.Set(assignableValue(reflect.ValueOf(attrValue), f.Type()))
 					}
 				}
 			}
@@ -974,6 +974,21 @@ func newStructConverter(typ reflect.Type) (*StructConverter, error) {
 		goType:      goType,
 		isValueType: !goType.IsPointerType(),
 	}, nil
+}
+
+// assignableValue prepares the Go value produced by a TypeConverter for
+// assignment to a location of type t (a struct field, parameter, map value or
+// element). Converters produce values of basic unnamed types, so when t is a
+// named type of the same kind (e.g. time.Duration for an int64) the value is
+// converted; a nil value becomes the zero value of t.
+func assignableValue(v reflect.Value, t reflect.Type) reflect.Value {
+	if !v.IsValid() {
+		return reflect.Zero(t)
+	}
+	if vt := v.Type(); !vt.AssignableTo(t) && vt.Kind() == t.Kind() && vt.ConvertibleTo(t) {
+		return v.Convert(t)
+	}
+	return v
 }
 
 // PointerConverter converts between *T and the Risor equivalent of T.
@@ -1032,7 +1047,7 @@ func (c *SliceConverter) To(obj Object) (interface{}, error) {
 		if err != nil {
 			return nil, errz.TypeErrorf("type error: failed to convert slice element: %v", err)
 		}
-		slice = reflect.Append(slice, reflect.ValueOf(item))
+		slice = reflect.Append(slice, assignableValue(reflect.ValueOf(item), c.valueType))
 	}
 	return slice.Interface(), nil
 }
@@ -1083,7 +1098,7 @@ func (c *ArrayConverter) To(obj Object) (interface{}, error) {
 		if err != nil {
 			return nil, errz.TypeErrorf("type error: failed to convert element: %v", err)
 		}
-		arrayElem.Index(i).Set(reflect.ValueOf(item))
+		arrayElem.Index(i).Set(assignableValue(reflect.ValueOf(item), c.valueType))
 	}
 	return arrayElem.Interface(), nil
 }
